@@ -384,6 +384,11 @@ func TestVerifC10Stack(t *testing.T) {
 						// the subnet's base address is still not the place of the client
 						bits = []uint8{8, 8, 0}[rng.Intn(3)]
 						rec.ecsAddr = netip.PrefixFrom(a, int(bits)).Masked().Addr()
+						if rec.ecsAddr == a {
+							// the client's address IS the base address of that prefix: the scripted GeoIP database could
+							// not tell the two apart
+							bits, rec.ecsAddr = 24, netip.AddrFrom4([4]byte{45, 45, byte(rng.Intn(250)), 0})
+						}
 					}
 					req.SetEdns0(1232, false)
 					o := req.IsEdns0()
